@@ -197,7 +197,8 @@ impl<U> NumDecompressor<U> where U: UnsignedLike {
   }
 
   pub fn bits_remaining(&self) -> usize {
-    self.compressed_body_size * 8 - self.state.bits_processed
+    // a corrupt body size can be smaller than what was already processed
+    (self.compressed_body_size * 8).saturating_sub(self.state.bits_processed)
   }
 
   fn limit_reps(
